@@ -399,6 +399,11 @@ class SymFile:
             raise io.UnsupportedOperation('not writable')
         node = self.node
         if self.binary:
+            from . import symnp
+            if isinstance(data, symnp.ModelBytes):
+                # fd.write(arr.tobytes()): same bytes as arr.tofile(fd) (a refused write raises here as well)
+                array_tofile(data.arr, self)
+                return len(data)
             raise ModelGap('raw binary write')
         if isinstance(data, JsonText):
             data = data.doc
